@@ -247,6 +247,18 @@ Definition check_offline (c : offline_case) : list string :=
   | _, Some e => validate_offline (of_req c) (of_entries c) e
   end.
 
+(* ---- file names of cached revisions --------------------------------------------------
+   the real etagFromResponse + cacheFileFromEtag on a set of ETags for one cache file *)
+Record names_case := { nc_index : bool; nc_items : list ename }.
+Definition check_names (c : names_case) : list string :=
+  validate_names (nc_items c) ++
+  match etag_part etag_name_use with
+  | None => ["mismatch:etag-name-use-not-recognised"]
+  | Some part =>
+      tag_if (negb (List.forallb (fun i => String.eqb (etag_file_base part etag_name_exts (nc_index c) (en_enc i)) (en_base i)) (nc_items c)))
+             "mismatch:file-name-differs-from-model"
+  end.
+
 (* ---- one case type for the generated files -------------------------------------- *)
 Inductive c19_case :=
 | CListing (c : listing_case)
@@ -254,7 +266,8 @@ Inductive c19_case :=
 | CTrace (c : trace_case)
 | CFlightSeq (c : flight_seq_case)
 | CFlightConc (c : flight_conc_case)
-| COffline (c : offline_case).
+| COffline (c : offline_case)
+| CNames (c : names_case).
 Definition check_c19 (c : c19_case) : list string :=
   match c with
   | CListing c => check_listing c
@@ -263,4 +276,5 @@ Definition check_c19 (c : c19_case) : list string :=
   | CFlightSeq c => check_flight_seq c
   | CFlightConc c => check_flight_conc c
   | COffline c => check_offline c
+  | CNames c => check_names c
   end.
